@@ -1,6 +1,226 @@
-//! Real parser combinators built from abstract terms (call records for C20).
+//! Real parser combinators of `rusty_pc` built from abstract terms (call records for C20).
+//!
+//! Every term is built as a boxed parser with the uniform output type `String`
+//! (pairs and lists are concatenated, "no value" is the empty string) over a
+//! test input of characters.  The closure table (predicates, mappers, error
+//! codes) is fixed and shared with the specification PC.tla.
+
+use rusty_pc::boxed::BoxedParser;
+use rusty_pc::*;
 use serde_json::{Value, json};
 
-pub fn do_pc(_req: &Value) -> Value {
-    json!({"error": "pc not built yet"})
+#[derive(Clone, Debug, Default, PartialEq)]
+pub struct TE {
+    fatal: bool,
+    code: u8,
+}
+
+impl TE {
+    fn soft(code: u8) -> Self {
+        TE { fatal: false, code }
+    }
+    fn fatal(code: u8) -> Self {
+        TE { fatal: true, code }
+    }
+}
+
+impl ParserErrorTrait for TE {
+    fn is_fatal(&self) -> bool {
+        self.fatal
+    }
+    fn to_fatal(self) -> Self {
+        TE {
+            fatal: true,
+            code: self.code,
+        }
+    }
+}
+
+pub struct TI {
+    chars: Vec<char>,
+    pos: usize,
+}
+
+impl InputTrait for TI {
+    type Output = char;
+
+    fn peek(&self) -> char {
+        self.chars.get(self.pos).copied().unwrap_or('\0')
+    }
+
+    fn read(&mut self) -> char {
+        let c = self.peek();
+        if self.pos < self.chars.len() {
+            self.pos += 1;
+        }
+        c
+    }
+
+    fn get_position(&self) -> usize {
+        self.pos
+    }
+
+    fn is_eof(&self) -> bool {
+        self.pos >= self.chars.len()
+    }
+
+    fn set_position(&mut self, position: usize) {
+        self.pos = position;
+    }
+}
+
+type P = BoxedParser<TI, (), String, TE>;
+
+fn starts_with(s: &str, c: char) -> bool {
+    s.starts_with(c)
+}
+
+fn child(t: &Value, key: &str) -> Result<P, String> {
+    build(&t[key])
+}
+
+pub fn build(t: &Value) -> Result<P, String> {
+    let op = t["op"].as_str().unwrap_or("");
+    Ok(match op {
+        "read" => read_p::<TI, TE>().map(|c: char| c.to_string()).boxed(),
+        "peekp" => peek_p::<TI, TE>().map(|c: char| c.to_string()).boxed(),
+        "one" => one_p::<TI, char, TE>('a').map(|c: char| c.to_string()).boxed(),
+        "oneof" => one_of_p::<TI, char, TE>(&['a', 'b'])
+            .map(|c: char| c.to_string())
+            .boxed(),
+        "sup" => supplier::<TI, (), _, String, TE>(String::new).boxed(),
+        "softfail" => err_supplier::<TI, (), _, String, TE>(|| TE::soft(1)).boxed(),
+        "fatalfail" => err_supplier::<TI, (), _, String, TE>(|| TE::fatal(9)).boxed(),
+        "map" => child(t, "p")?.map(|s: String| s + "!").boxed(),
+        "lazy" => {
+            let tt = t["p"].clone();
+            // validate eagerly so that a bad term is reported, not a panic inside the factory
+            build(&tt)?;
+            lazy(move || build(&tt).expect("validated")).boxed()
+        }
+        "to_fatal" => child(t, "p")?.to_fatal().boxed(),
+        "with_soft_err" => child(t, "p")?.with_soft_err(TE::soft(2)).boxed(),
+        "or_fail" => child(t, "p")?.or_fail(TE::fatal(8)).boxed(),
+        "map_fatal_err" => child(t, "p")?.map_fatal_err(TE::fatal(7)).boxed(),
+        "and_then_ok" => child(t, "p")?
+            .and_then(|s: String| Ok::<String, TE>(s + "+"))
+            .boxed(),
+        "and_then_soft" => child(t, "p")?
+            .and_then(|s: String| {
+                if starts_with(&s, 'b') {
+                    Err(TE::soft(3))
+                } else {
+                    Ok(s)
+                }
+            })
+            .boxed(),
+        "and_then_fatal" => child(t, "p")?
+            .and_then(|s: String| {
+                if starts_with(&s, 'b') {
+                    Err(TE::fatal(5))
+                } else {
+                    Ok(s)
+                }
+            })
+            .boxed(),
+        "and_then_err" => child(t, "p")?
+            .and_then_err(|_e: TE| Ok::<String, TE>(String::new()))
+            .boxed(),
+        "filter" => child(t, "p")?.filter(|s: &String| starts_with(s, 'a')).boxed(),
+        "filter_map" => child(t, "p")?
+            .filter_map(|s: &String| {
+                if starts_with(s, 'a') {
+                    Some(s.clone())
+                } else {
+                    None
+                }
+            })
+            .boxed(),
+        "peek" => child(t, "p")?.peek().boxed(),
+        "to_option" => child(t, "p")?
+            .to_option()
+            .map(|o: Option<String>| o.unwrap_or_default())
+            .boxed(),
+        "or_default" => child(t, "p")?.or_default().boxed(),
+        "many1" => child(t, "p")?
+            .one_or_more()
+            .map(|v: Vec<String>| v.concat())
+            .boxed(),
+        "many0" => child(t, "p")?
+            .zero_or_more()
+            .map(|v: Vec<String>| v.concat())
+            .boxed(),
+        "and" => child(t, "l")?
+            .and(child(t, "r")?, |l: String, r: String| l + &r)
+            .boxed(),
+        "and_left" => child(t, "l")?.and_keep_left(child(t, "r")?).boxed(),
+        "and_right" => child(t, "l")?.and_keep_right(child(t, "r")?).boxed(),
+        "or" => child(t, "l")?.or(child(t, "r")?).boxed(),
+        "orbox" => {
+            let l: Box<dyn Parser<TI, (), Output = String, Error = TE>> = Box::new(child(t, "l")?);
+            let r: Box<dyn Parser<TI, (), Output = String, Error = TE>> = Box::new(child(t, "r")?);
+            OrParser::new(vec![l, r]).boxed()
+        }
+        "seq2" => seq2(child(t, "l")?, child(t, "r")?, |l: String, r: String| l + &r).boxed(),
+        "then_with" => child(t, "p")?
+            .then_with_in_context(ctx_parser::<TI, String, TE>(), |l: String, r: String| l + &r)
+            .boxed(),
+        "surround_opt" => surround(
+            child(t, "l")?,
+            child(t, "p")?,
+            child(t, "r")?,
+            SurroundMode::Optional,
+        )
+        .boxed(),
+        "surround_mand" => surround(
+            child(t, "l")?,
+            child(t, "p")?,
+            child(t, "r")?,
+            SurroundMode::Mandatory,
+        )
+        .boxed(),
+        "delimited" => child(t, "l")?
+            .delimited_by(child(t, "r")?, TE::fatal(6))
+            .map(|v: Vec<String>| v.concat())
+            .boxed(),
+        "delimited_opt" => child(t, "l")?
+            .delimited_by_allow_missing(child(t, "r")?, TE::fatal(6))
+            .map(|v: Vec<Option<String>>| v.into_iter().flatten().collect::<Vec<String>>().concat())
+            .boxed(),
+        _ => return Err(format!("unknown op {}", op)),
+    })
+}
+
+/// {"op":"pc","terms":[term...],"inputs":["", "a", ...]} ->
+/// {"results":[[ [class, value, code, pos] per input ] per term]}
+pub fn do_pc(req: &Value) -> Value {
+    let terms = req["terms"].as_array().cloned().unwrap_or_default();
+    let inputs: Vec<String> = req["inputs"]
+        .as_array()
+        .map(|a| a.iter().map(|x| x.as_str().unwrap_or("").to_string()).collect())
+        .unwrap_or_default();
+    let mut out = vec![];
+    for t in terms.iter() {
+        let row = crate::guarded(|| {
+            let mut parser = match build(t) {
+                Ok(p) => p,
+                Err(e) => return json!({"error": e}),
+            };
+            let mut row = vec![];
+            for inp in inputs.iter() {
+                let mut ti = TI {
+                    chars: inp.chars().collect(),
+                    pos: 0,
+                };
+                let cell = match parser.parse(&mut ti) {
+                    Ok(v) => json!(["ok", v, 0, ti.pos]),
+                    Err(e) => json!([if e.fatal { "fatal" } else { "soft" }, "", e.code, ti.pos]),
+                };
+                row.push(cell);
+            }
+            json!(row)
+        });
+        out.push(row);
+    }
+    json!({"results": out})
 }
